@@ -335,7 +335,7 @@ func (w *worker) runSel(c *selCase, raw []byte) {
 						same = reflect.DeepEqual(cr.Vals, r.Vals)
 					} else if same {
 						// same type, same step (index in the step list)
-						same = errClass(cr.Err) == errClass(r.Err) && sameStep(errSteps(cr.Err, &c.Texts[0]), errSteps(r.Err, sp))
+						same = errClass(cr.Err) == errClass(r.Err) && sameStep(errSteps(cr.Err, &c.Texts[0], c.Path.Steps), errSteps(r.Err, sp, c.Path.Steps))
 					}
 					if !same {
 						w.viol("C18", "spelling-changes-behaviour", text, before, fmt.Sprintf("canonical %q gives %s, this spelling gives %s", canon, cr, r), kinds, raw)
@@ -378,9 +378,21 @@ func primary(P map[string]bool, order ...string) string {
 
 // errSteps finds which steps/functions the error may name (indices into stexts); a text can occur
 // at several steps (`$.a.a`), so the answer is a set
-func errSteps(err error, sp *spelling) map[int]bool {
+func errSteps(err error, sp *spelling, steps []Step) map[int]bool {
 	msg := err.Error()
 	out := map[int]bool{}
+	if strings.HasSuffix(msg, "(path=*)") {
+		// 5.7(c): the `*` member of a multi selector reports itself as `*`
+		for i, st := range steps {
+			if st.K == "multi" {
+				for _, id := range st.Ids {
+					if id.K == "wild" {
+						out[i] = true
+					}
+				}
+			}
+		}
+	}
 	for i, t := range sp.Stexts {
 		s := cps(t)
 		if strings.HasSuffix(msg, "path="+s+")") || strings.Contains(msg, "function="+s+",") {
